@@ -503,7 +503,15 @@ impl Contract<Empty> for Wrapped {
         self.inner.instantiate(deps, env, info, msg)
     }
     fn query(&self, deps: Deps, env: Env, msg: Vec<u8>) -> AnyResult<Binary> {
-        self.inner.query(deps, env, msg)
+        // on a chain a contract that panics while answering a query makes the VM return an error
+        // to the querying contract (which may handle it); it does not abort the caller
+        match std::panic::catch_unwind(std::panic::AssertUnwindSafe(|| self.inner.query(deps, env, msg))) {
+            Ok(r) => r,
+            Err(e) => {
+                let m = e.downcast_ref::<String>().cloned().or_else(|| e.downcast_ref::<&str>().map(|s| s.to_string())).unwrap_or_else(|| "panic".to_string());
+                Err(anyhow::anyhow!("query aborted: {m}"))
+            }
+        }
     }
     fn sudo(&self, deps: DepsMut, env: Env, msg: Vec<u8>) -> AnyResult<Response> {
         self.inner.sudo(deps, env, msg)
